@@ -1010,6 +1010,15 @@ def run(ctx):
     if ok:
         cases = all_cases
     stage["shards_s"] = round(time.time() - t1, 1)
+    # informational: which transcribed functions moved since Model.v was written (never a VIOLATION)
+    try:
+        from . import c01_pins
+        drift = c01_pins.drift(common.REPO)
+    except Exception:
+        drift = None
+    if drift:
+        ctx.say("NOTE property=C01 the source of %d transcribed function(s) differs from the tree coq/C01/Model.v was written "
+                "against: %s" % (len(drift), ", ".join(drift[:8]) + (" ..." if len(drift) > 8 else "")))
     evals = sum(len(cs["rows"]) for cs in cases)
     keys = set()
     cls_hist = {}
@@ -1027,6 +1036,7 @@ def run(ctx):
                         "observed": row["o64"][1].tolist() if row["o64"][0] == "ok" else row["o64"][1]})
     ctx.coverage.update({
         "trusted_base": common.COQ_TRUSTED + [
+            "primitive 63-bit integers of Coq (only in the literals of the generated shards, coq/C01/Check.v untable)",
             "torch primitives modelled by their mathematical meaning in coq/C01/Model.v: matmul, elementwise */+ with broadcasting, "
             "expand, view/reshape/transpose/permute as row-major index maps, cat/narrow/mask indexing, gather; fft->multiply->ifft "
             "replaced by the circular convolution it computes",
@@ -1044,6 +1054,7 @@ def run(ctx):
         "model_mismatches": stats["model_mismatches"], "predicate_failures": stats["predicate_failures"],
         "repaired_known_cells": stats["repaired_cells"], "known_finding_witnesses_still_failing": n_kf,
         "samples": samples, "wall_python_s": round(time.time() - t0, 1), "stage_seconds": stage,
+        "transcription_drift": drift,
     })
     ctx.assumptions = [
         "entries are small integers, so float32/float64 results are exact (FFT-based Toeplitz products up to 1e-6 / 2e-2)",
